@@ -628,6 +628,48 @@ impl<'a, W: Clearable + Write> Writer<'a, W> {
     }
 }
 
+/// Snapshot of a [`Writer`]'s internal bookkeeping, for verification harnesses.
+#[cfg(feature = "verif-hooks")]
+#[derive(Debug, Clone, PartialEq, Eq)]
+pub struct VerifWriterState {
+    /// Encoded values of the pending (not yet flushed) block.
+    pub buffer: Vec<u8>,
+    /// Number of values in the pending block.
+    pub num_values: usize,
+    /// Whether the header has been written (or was declared written).
+    pub has_header: bool,
+    /// The sync marker in use.
+    pub marker: [u8; 16],
+    /// User metadata (key, value bytes), sorted by key.
+    pub user_metadata: Vec<(String, Vec<u8>)>,
+}
+
+#[cfg(feature = "verif-hooks")]
+impl<W: Write> Writer<'_, W> {
+    /// Verification hook: observe the internal state without changing it.
+    pub fn verif_state(&self) -> VerifWriterState {
+        let mut user_metadata: Vec<(String, Vec<u8>)> = self
+            .user_metadata
+            .iter()
+            .map(|(k, v)| {
+                let bytes = match v {
+                    Value::Bytes(b) => b.clone(),
+                    other => format!("{other:?}").into_bytes(),
+                };
+                (k.clone(), bytes)
+            })
+            .collect();
+        user_metadata.sort();
+        VerifWriterState {
+            buffer: self.buffer.clone(),
+            num_values: self.num_values,
+            has_header: self.has_header,
+            marker: self.marker,
+            user_metadata,
+        }
+    }
+}
+
 impl<W: Write> Drop for Writer<'_, W> {
     /// Drop the writer, will try to flush ignoring any errors.
     fn drop(&mut self) {
